@@ -355,7 +355,45 @@ WAVE3_TABLE = [
      'fn f<const D: usize>(shape: &[(Dimension, usize); D]) -> bool { shape.first().map_or(true, |(_, l)| *l > 0) }',
      ['Definition gen_f (md : mode) (shape : (list (N * N))) : outcome bool :=\n  Ok (match hd_error shape with Some tmp1 => (fun x => let l := snd x in 0 <? l) tmp1 | None => true end).']),
 ]
+# ---- wave 4: the element backend (numops dictionary; source iterator = list; while / for with `?`)
+GAUSS_DECL = "pub struct Gaussian<T: Real> { pub mean: T, pub variance: T }\n"
+def _gimpl(body):
+    return GAUSS_DECL + "impl<T: Real> Gaussian<T> where for<'a> &'a T: RealRef<T> { " + body + " }"
+WAVE4_CASES = [
+    ("real-next-question-pair", _gimpl("fn generate_pair<I>(&self, source: &mut I) -> Option<(T, T)> where I: Iterator<Item = T> { Some((source.next()?, source.next()?)) }"), "generate_pair"),
+    ("real-constants-operators-methods-fields", _gimpl("pub fn f<I: Iterator<Item = T>>(&self, source: &mut I) -> Option<T> { let two = T::one() + T::one(); let m = -&two; let x = source.next()?; "
+                                                      "let y = (&m * x.clone().ln()).sqrt() / (&two * T::pi()).cos() - x.sin().exp(); Some((y * &self.variance.clone()) + &self.mean - T::zero()) }"), "f"),
+    ("real-while-push-pop-len-return", _gimpl("pub fn f<I>(&self, source: &mut I, n: usize) -> Option<Vec<T>> where I: Iterator<Item = T> { let mut out = Vec::with_capacity(n); "
+                                              "while out.len() < n { let x = source.next()?; out.push(x.clone() * &self.mean); out.push(x); } if out.len() > n { out.pop(); return Some(out); } Some(out) }"), "f"),
+    ("real-call-of-sibling-method-tuple-pattern", _gimpl("fn pair<I>(&self, source: &mut I) -> Option<(T, T)> where I: Iterator<Item = T> { Some((source.next()?, source.next()?)) }\n"
+                                                         "pub fn f<I>(&self, source: &mut I) -> Option<T> where I: Iterator<Item = T> { let (u, v) = self.pair(source)?; Some(u - v) }"), "f"),
+    ("real-for-range-div-rem-if-without-else", _gimpl("pub fn f<I>(&self, source: &mut I, n: usize) -> Option<Vec<T>> where I: Iterator<Item = T> { let mut out = Vec::new(); "
+                                                      "for _ in 0..(n / 2) { let x = source.next()?; out.push(x); } if n % 2 == 1 { let y = source.next()?; out.push(y.cos()); } Some(out) }"), "f"),
+    ("real-for-named-variable-truncate-bool-ops", _gimpl("pub fn f<I>(&self, source: &mut I, n: usize) -> Option<Vec<T>> where I: Iterator<Item = T> { let mut out = Vec::new(); "
+                                                         "for i in 0..n { if !(i < 2) && i != 5 || i == 7 { let x = source.next()?; out.push(x); } } out.truncate(n / 2); Some(out) }"), "f"),
+    ("real-budget-signature-without-while", _gimpl("pub fn f<I>(&self, source: &mut I, n: usize) -> Option<Vec<T>> where I: Iterator<Item = T> { let mut out = Vec::new(); "
+                                                   "for _ in 0..n { out.push(source.next()?); } Some(out) }"), "f"),
+    ("real-refuse-shadowing", _gimpl("pub fn f<I>(&self, source: &mut I) -> Option<T> where I: Iterator<Item = T> { let x = source.next()?; let x = x.sin(); Some(x) }"), "f", "shadows a variable"),
+    ("real-refuse-nested-loop", _gimpl("pub fn f<I>(&self, source: &mut I, n: usize) -> Option<Vec<T>> where I: Iterator<Item = T> { let mut out = Vec::new(); "
+                                       "for _ in 0..n { for _ in 0..n { out.push(source.next()?); } } Some(out) }"), "f", "a loop inside a loop"),
+    ("real-refuse-assignment-in-loop", _gimpl("pub fn f<I>(&self, source: &mut I, n: usize) -> Option<T> where I: Iterator<Item = T> { let mut x = T::one(); "
+                                              "for _ in 0..n { x = source.next()?; } Some(x) }"), "f", "assignment inside a loop"),
+    ("real-refuse-effect-in-condition", _gimpl("pub fn f<I>(&self, source: &mut I, n: usize) -> Option<Vec<T>> where I: Iterator<Item = T> { let mut out = Vec::new(); "
+                                               "while out.len() < n && source.next()?.sin() == T::one() { out.push(T::one()); } Some(out) }"), "f", "reads the source inside a loop condition"),
+    ("real-refuse-usize-arithmetic", _gimpl("pub fn f<I>(&self, source: &mut I, n: usize) -> Option<Vec<T>> where I: Iterator<Item = T> { let mut out = Vec::new(); "
+                                            "for _ in 0..(n + 1) { out.push(source.next()?); } Some(out) }"), "f", "operator + between 'usize' and 'usize'"),
+    ("real-refuse-callee-with-while", _gimpl("fn skip<I>(&self, source: &mut I) -> Option<T> where I: Iterator<Item = T> { let mut seen = Vec::new(); while seen.len() < 1 { seen.push(source.next()?); } source.next() }\n"
+                                             "pub fn f<I>(&self, source: &mut I) -> Option<T> where I: Iterator<Item = T> { let u = self.skip(source)?; Some(u) }"), "f", "which contains a `while` loop"),
+    ("real-refuse-unknown-method", _gimpl("pub fn f<I>(&self, source: &mut I) -> Option<T> where I: Iterator<Item = T> { let (lo, _) = source.size_hint(); source.next() }"), "f", "method size_hint"),
+    ("real-refuse-changed-struct", "pub struct Gaussian<T: Real> { pub variance: T, pub mean: T }\nimpl<T: Real> Gaussian<T> { fn f<I>(&self, source: &mut I) -> Option<T> where I: Iterator<Item = T> { source.next() } }", "f",
+     "struct Gaussian now has fields"),
+    ("real-refuse-no-source", _gimpl("pub fn f(&self, x: &T) -> T { x.clone() }"), "f", "no `&mut I` iterator parameter"),
+]
+WAVE4_EXPECTED = {'real-budget-signature-without-while': ["Definition gen_f {R : Type} (ops : numops R) (fuel : nat) (self : R * R) (source : list R) (n : N) : option ((option (list R)) * list R) :=\n  let out := (@nil R) in match gen_rfor (fun '(out, source) _ => let '(o1, source) := gen_next source in match o1 with Some v2 => let out := out ++ [v2] in Next ((out, source)) | None => Return ((None, source)) end) ((out, source)) (gen_range 0 n) with Return r => Some r | Next ((out, source)) => Some ((Some out, source)) end."],
+ 'real-call-of-sibling-method-tuple-pattern': ["Definition gen_Gaussian_pair {R : Type} (ops : numops R) (self : R * R) (source : list R) : (option (R * R)) * list R :=\n  let '(o1, source) := gen_next source in match o1 with Some v2 => let '(o3, source) := gen_next source in match o3 with Some v4 => (Some ((v2, v4)), source) | None => (None, source) end | None => (None, source) end.", "Definition gen_f {R : Type} (ops : numops R) (self : R * R) (source : list R) : (option R) * list R :=\n  let '(o1, source) := gen_Gaussian_pair ops self source in match o1 with Some v2 => let '(u, v) := v2 in (Some (nsub ops u v), source) | None => (None, source) end."], 'real-constants-operators-methods-fields': ["Definition gen_f {R : Type} (ops : numops R) (self : R * R) (source : list R) : (option R) * list R :=\n  let two := nadd ops (none_ ops) (none_ ops) in let m := nneg ops two in let '(o1, source) := gen_next source in match o1 with Some v2 => let x := v2 in let y := nsub ops (ndiv ops (nsqrt ops (nmul ops m (nln ops x))) (ncos ops (nmul ops two (npi ops)))) (nexp ops (nsin ops x)) in (Some (nsub ops (nadd ops (nmul ops y (snd self)) (fst self)) (nzero ops)), source) | None => (None, source) end."], 'real-for-named-variable-truncate-bool-ops': ["Definition gen_f {R : Type} (ops : numops R) (self : R * R) (source : list R) (n : N) : (option (list R)) * list R :=\n  let out := (@nil R) in match gen_rfor (fun '(out, source) i => if ((negb (i <? 2)) && (negb (i =? 5))) || (i =? 7) then let '(o1, source) := gen_next source in match o1 with Some v2 => let x := v2 in let out := out ++ [x] in Next ((out, source)) | None => Return ((None, source)) end else Next ((out, source))) ((out, source)) (gen_range 0 n) with Return r => r | Next ((out, source)) => let out := firstn (N.to_nat (N.div n 2)) out in (Some out, source) end."], 'real-for-range-div-rem-if-without-else': ["Definition gen_f {R : Type} (ops : numops R) (self : R * R) (source : list R) (n : N) : (option (list R)) * list R :=\n  let out := (@nil R) in match gen_rfor (fun '(out, source) _ => let '(o1, source) := gen_next source in match o1 with Some v2 => let x := v2 in let out := out ++ [x] in Next ((out, source)) | None => Return ((None, source)) end) ((out, source)) (gen_range 0 (N.div n 2)) with Return r => r | Next ((out, source)) => if (N.modulo n 2) =? 1 then let '(o3, source) := gen_next source in match o3 with Some v4 => let y := v4 in let out := out ++ [ncos ops y] in (Some out, source) | None => (None, source) end else (Some out, source) end."], 'real-next-question-pair': ["Definition gen_generate_pair {R : Type} (ops : numops R) (self : R * R) (source : list R) : (option (R * R)) * list R :=\n  let '(o1, source) := gen_next source in match o1 with Some v2 => let '(o3, source) := gen_next source in match o3 with Some v4 => (Some ((v2, v4)), source) | None => (None, source) end | None => (None, source) end."], 'real-while-push-pop-len-return': ["Definition gen_f {R : Type} (ops : numops R) (fuel : nat) (self : R * R) (source : list R) (n : N) : option ((option (list R)) * list R) :=\n  let out := (@nil R) in match gen_while fuel (fun '(out, source) => (N.of_nat (length out)) <? n) (fun '(out, source) => let '(o1, source) := gen_next source in match o1 with Some v2 => let x := v2 in let out := out ++ [nmul ops x (fst self)] in let out := out ++ [x] in Next ((out, source)) | None => Return ((None, source)) end) ((out, source)) with None => None | Some (Return r) => Some r | Some (Next ((out, source))) => if n <? (N.of_nat (length out)) then let out := removelast out in Some ((Some out, source)) else Some ((Some out, source)) end."]}
+
 TABLE += WAVE3_TABLE
+TABLE += [(c[0], 'real_budget' if c[0].startswith('real-budget') else 'real', 'Gaussian', c[2], c[1], ('refused', c[3]) if len(c) > 3 else WAVE4_EXPECTED[c[0]]) for c in WAVE4_CASES]
 
 
 def translate_snippet(kind, ctx, name, src):
